@@ -3,7 +3,9 @@
 package tcpmux
 
 import (
+	"io"
 	"net"
+	"net/http"
 
 	"github.com/fatedier/frp/verif"
 )
@@ -35,5 +37,26 @@ func verif_getHostFromHTTPConnect(muxer *HTTPConnectTCPMuxer, c net.Conn) {
 		verif.Ensures(info["Host"] == verif.RetStr(evRead, 0) && info["HTTPUser"] == verif.RetStr(evRead, 1) && info["HTTPPwd"] == verif.RetStr(evRead, 2), "request_info_is_what_was_read")
 	} else {
 		verif.Ensures(verif.RetErr(evRead, 3) != nil, "error_only_when_reading_failed")
+	}
+}
+
+// readHTTPConnectRequest (C06 "host comparison ignores letter case and, for
+// HTTP and CONNECT, a port suffix and a trailing dot"; C07): only a CONNECT
+// request is accepted; the host the route is looked up by is the canonical
+// form of the request's target (the one canonicalisation the http vhost uses:
+// a target without a port, in upper case or with a trailing dot is the same
+// host), and the credentials are those of the Proxy-Authorization header.
+//
+//verif:contract (*~/pkg/util/tcpmux.HTTPConnectTCPMuxer).readHTTPConnectRequest
+//verif:props C06 C07
+//verif:kinds post
+func verif_readHTTPConnectRequest(muxer *HTTPConnectTCPMuxer, rd io.Reader) {
+	verif.ResetEvents()
+	host, _, _, err := muxer.readHTTPConnectRequest(rd)
+	const evRead, evCanon = "net/http.ReadRequest", "http.CanonicalHost"
+	if err == nil {
+		req := verif.Ret[*http.Request](evRead, 0)
+		verif.Ensures(verif.RetErr(evRead, 1) == nil && req.Method == "CONNECT", "only_connect_requests")
+		verif.Ensures(verif.CallCount(evCanon) == 1 && verif.CalledWith(evCanon, 0, req.Host) && host == verif.RetStr(evCanon, 0), "route_host_is_the_canonical_form_of_the_target")
 	}
 }
